@@ -4,12 +4,19 @@ import Agd.Driver.Util
 
 ```
 cfg <nMain> <nFb> <backoff>                    -> ok          (state := NewHandler state)
+cfg <nMain> <nFb> <backoff> <probes|->         -> like rf     (NewHandler with its initial health check at time 0)
 q <main|-> <fb|-> <om,om,…|-> <ofb,ofb,…|->    -> a<tok>|sf  followed by the calls (m<u>, f<f>)
-rf <now> <okbits|->                            -> act=… lf=… probed=… err=0|1
-x <any|udp|tcp> <udpwire> <tcpwire>            -> ok<tok>|net|eof|other tcp=0|1
+rf <now> <probes|->                            -> act=… lf=… probed=… err=0|1
+rb <now> <probes|->                            -> ok          (a round begins; queries may arrive)
+qi <u> <main|-> <fb|-> <om…> <ofb…>            -> like q      (a query while the loop is at upstream u)
+re                                             -> like rf, plus seq=<q|p<u>|end,…> (the round's events)
+x <any|udp|tcp> <udpwire> <tcpwire>            -> ok<tok>|net|eof|other tcp=0|1 probe=0|1
 v <reqId> <reqName> <reqType> <respId> <n> (<name> <type>)*   -> ok|id|count|type|name
 rd <n> <byte>*                                 -> none | id=… tc=… qs=name:type,…   (readMsg)
 ```
+A probe is `1`/`0` (succeeded / failed), `r<rcode>` (a response with that RCODE), `e` (an error),
+`z` (nil, nil) or `w.<net>.<udpwire>.<tcpwire>` (a plain upstream; `checkUpstream` of the exchange).
+A wire may be `<first>><second>`: the two attempts of `exchangeNet`; modifiers `sf nx rf` set the RCODE.
 `<main>`/`<fb>` are the upstreams the implementation was seen to pick (the random choice is
 an input of the model).  An outcome is `r<tok>`, `n` (net.Error), `o` (other error), `z`
 (nil, nil) or `w.<net>.<udpwire>.<tcpwire>.<tok>`; a wire is `<base>[+tc][+na]` with base one of
@@ -22,6 +29,8 @@ open Agd.Forward Agd.Driver
 structure S where
   cfg : Cfg := { nMain := 0, nFb := 0, backoff := 0 }
   st : St := St.init { nMain := 0, nFb := 0, backoff := 0 }
+  /-- a round in progress: its probes and the queries that arrived so far (slot, arguments) -/
+  round : Option ((Nat → Probe) × List (Nat × QArgs)) := none
 
 def reqId : Nat := 7
 def reqQ : Question := { name := [97, 98, 46], qtype := 1 }
@@ -44,15 +53,24 @@ def modWire (w : Wire) (m : String) : Option Wire :=
   match w, m with
   | .msg x, "tc" => some (.msg { x with tc := true })
   | .msg x, "na" => some (.msg { x with tok := 0 })
+  | .msg x, "sf" => some (.msg { x with rcode := 2 })
+  | .msg x, "nx" => some (.msg { x with rcode := 3 })
+  | .msg x, "rf" => some (.msg { x with rcode := 5 })
   | _, _ => none
 
-def wire (tok : Nat) (s : String) : Wire :=
+def wire1 (tok : Nat) (s : String) : Wire :=
   match s.splitOn "+" with
   | [] => .bad
   | b :: mods =>
     match mods.foldl (fun w m => w.bind (modWire · m)) (some (baseWire tok b)) with
     | some w => w
     | none => .bad
+
+/-- `<first>><second>`: the retry of `exchangeNet`; a single wire stands for both attempts. -/
+def wire (tok : Nat) (s : String) : Wire :=
+  match s.splitOn ">" with
+  | [a, b] => retryWire (wire1 tok a) (wire1 tok b)
+  | _ => retryWire (wire1 tok s) (wire1 tok s)
 
 def net : String → Net
   | "udp" => .udp
@@ -71,6 +89,21 @@ def outcome (s : String) : Outcome :=
 def outcomes (s : String) : Nat → Outcome :=
   let l := if s == "-" then [] else (s.splitOn ",").map outcome
   fun i => l.getD i .otherErr
+
+/-- A probe token. -/
+def probeOk (s : String) : Bool :=
+  if s == "1" then true
+  else if s == "0" then false
+  else if s == "e" then checkUpstream .err
+  else if s == "z" then checkUpstream .nil
+  else if s.startsWith "r" then checkUpstream (.resp (nat! (s.drop 1).toString))
+  else match s.splitOn "." with
+    | ["w", n, u, t] => checkUpstream (exchange (net n) reqId reqQ (wire 1 u) (wire 1 t)).1.probe
+    | _ => false
+
+def probes (now : Int) (s : String) : Nat → Probe :=
+  let l := if s == "-" then [] else (s.splitOn ",").map probeOk
+  fun u => { tCheck := now, ok := l.getD u false, tFail := now }
 
 def showCall : Call → String
   | .main u => s!"m{u}"
@@ -97,34 +130,77 @@ def parseQs : List String → List Question
   | n :: t :: r => { name := nameBytes n, qtype := nat! t } :: parseQs r
   | _ => []
 
+/-- The arguments of a query line; `none` when the implementation's pick is impossible. -/
+def qargs (s : S) (pm pf om ofb : String) : Option QArgs :=
+  let pick? : Option Nat :=
+    if s.st.active.isEmpty then (if pm == "-" then some 0 else none)
+    else if pm == "-" then none
+    else if s.st.active.contains (nat! pm) then some (s.st.active.idxOf (nat! pm)) else none
+  match pick? with
+  | none => none
+  | some pick =>
+    let pickFb := if pf == "-" then 0 else nat! pf
+    if pf != "-" && pickFb ≥ s.cfg.nFb then none
+    else some { pick := pick, om := outcomes om, pickFb := pickFb, ofb := outcomes ofb }
+
+def showState (c : Cfg) (st : St) (evs : List Ev) : String :=
+  let lf := (List.range c.nMain).map fun u =>
+    match st.lastFailed u with | none => "-" | some t => toString t
+  s!"act={showList st.active} lf={if lf.isEmpty then "-" else ",".intercalate lf} probed={showList (probedOf evs)} err={showB (c.nFb != 0 && st.active.isEmpty)}"
+
+def showSeq : List IEv → List String
+  | [] => []
+  | .ev (.query _ _) :: r => "q" :: showSeq r
+  | .ev (.probe u _ _ _) :: r => s!"p{u}" :: showSeq r
+  | .roundEnd :: r => "end" :: showSeq r
+
+def evsOf : List IEv → List Ev
+  | [] => []
+  | .ev e :: r => e :: evsOf r
+  | .roundEnd :: r => evsOf r
+
 def step (s : S) : List String → S × String
   | ["cfg", n, f, b] =>
     let c : Cfg := { nMain := nat! n, nFb := nat! f, backoff := int! b }
-    ({ cfg := c, st := St.init c }, "ok")
+    ({ cfg := c, st := (St.new c none).1 }, "ok")
+  | ["cfg", n, f, b, init] =>
+    let c : Cfg := { nMain := nat! n, nFb := nat! f, backoff := int! b }
+    let r := St.new c (some (probes 0 init))
+    ({ cfg := c, st := r.1 }, showState c r.1 r.2)
   | ["q", pm, pf, om, ofb] =>
-    let pick? : Option Nat :=
-      if s.st.active.isEmpty then (if pm == "-" then some 0 else none)
-      else if pm == "-" then none
-      else if s.st.active.contains (nat! pm) then some (s.st.active.idxOf (nat! pm)) else none
-    match pick? with
+    match qargs s pm pf om ofb with
     | none => (s, "bad-pick")
-    | some pick =>
-      let pickFb := if pf == "-" then 0 else nat! pf
-      if pf != "-" && pickFb ≥ s.cfg.nFb then (s, "bad-pick")
-      else (s, showOut (serve s.cfg s.st pick (outcomes om) pickFb (outcomes ofb)))
+    | some q => (s, showOut (serve s.cfg s.st q.pick q.om q.pickFb q.ofb))
   | ["rf", now, oks] =>
-    let bits := if oks == "-" then [] else oks.toList.map (· == '1')
-    let pr : Nat → Probe := fun u => { tCheck := int! now, ok := bits.getD u false, tFail := int! now }
-    let r := refresh s.cfg s.st pr
-    let lf := (List.range s.cfg.nMain).map fun u =>
-      match r.1.lastFailed u with | none => "-" | some t => toString t
-    ({ s with st := r.1 },
-      s!"act={showList r.1.active} lf={if lf.isEmpty then "-" else ",".intercalate lf} probed={showList (probedOf r.2.1)} err={showB r.2.2}")
+    if s.round.isSome then (s, "bad-op") else
+    let r := refresh s.cfg s.st (probes (int! now) oks)
+    ({ s with st := r.1 }, showState s.cfg r.1 r.2.1)
+  | ["rb", now, oks] =>
+    if s.round.isSome then (s, "bad-op") else
+    ({ s with round := some (probes (int! now) oks, []) }, "ok")
+  | ["qi", u, pm, pf, om, ofb] =>
+    match s.round with
+    | none => (s, "bad-op")
+    | some (pr, qs) =>
+      match qargs s pm pf om ofb with
+      | none => (s, "bad-pick")
+      | some q =>
+        ({ s with round := some (pr, qs ++ [(nat! u, q)]) },
+          showOut (serve s.cfg s.st q.pick q.om q.pickFb q.ofb))
+  | ["re"] =>
+    match s.round with
+    | none => (s, "bad-op")
+    | some (pr, qs) =>
+      let during : Nat → List QArgs := fun u => (qs.filter (fun x => x.1 == u)).map (·.2)
+      let r := refreshI s.cfg s.st pr during
+      let seq := showSeq r.2
+      ({ s with st := r.1, round := none },
+        s!"{showState s.cfg r.1 (evsOf r.2)} seq={if seq.isEmpty then "-" else ",".intercalate seq}")
   | ["x", n, u, t] =>
     let r := exchange (net n) reqId reqQ (wire 1 u) (wire 2 t)
     let x := match r.1 with
       | .ok m => s!"ok{m.tok}" | .netErr => "net" | .eof => "eof" | .other => "other"
-    (s, s!"{x} tcp={showB r.2}")
+    (s, s!"{x} tcp={showB r.2} probe={showB (checkUpstream r.1.probe)}")
   | "v" :: rid :: rn :: rt :: pid :: _ :: rest =>
     (s, showV (validate (nat! rid) { name := nameBytes rn, qtype := nat! rt }
       { id := nat! pid, qs := parseQs rest, tc := false, tok := 0 }))
@@ -133,7 +209,7 @@ def step (s : S) : List String → S × String
     | none => (s, "none")
     | some m =>
       let qs := m.qs.map fun q => s!"{String.ofList (q.name.map Char.ofNat)}:{q.qtype}"
-      (s, s!"id={m.id} tc={showB m.tc} qs={if qs.isEmpty then "-" else ",".intercalate qs}")
+      (s, s!"id={m.id} tc={showB m.tc} rc={m.rcode} qs={if qs.isEmpty then "-" else ",".intercalate qs}")
   | _ => (s, "bad-op")
 
 def main : IO Unit := loop step {}
